@@ -236,6 +236,10 @@ def work_items(tier, flt):
         for T in ([mid] if tier == "quick" else [mid, 7]):
             items.append({"kind": "tsweep", "env": env, "entry": entry, "T": T, "episodes": TWIN_SWEEP[env],
                           "batches": nb, "cost": 4})
+    # long limits on levels where random play makes progress: endings before the limit must be explained
+    for env, entry, T, n in (("Sokoban", "simplet120", 60, 1024),):
+        if envs.select_envs([env], flt) and not (flt and flt.get("entry") and entry not in flt["entry"]):
+            items.append({"kind": "tsweep", "env": env, "entry": entry, "T": T, "episodes": n, "batches": nb, "cost": 6})
     for env in envs.select_envs(list(HORIZON_SWEEP), flt):
         entry, n = HORIZON_SWEEP[env]
         if flt and flt.get("entry") and entry not in flt["entry"]:
@@ -253,11 +257,14 @@ def run_sweep(item, seed):
         if item["kind"] == "tsweep":
             T = int(item["T"])
             long_b, short_b = envs.bundle(env, entry, time_limit=T + 5), envs.bundle(env, entry, time_limit=T)
+            rm = _reason_model(short_b)
+            expl_fn = getattr(type(rm), "early_end_explained_jnp", None) if rm is not None else None
 
             def one(key, salt):
                 with ctx.guard(env, {"kind": "time", "env": env, "entry": entry, "T": T, "T_arg": T, "key": list(key),
                                      "actions": [], "stage": "sweep"}):
-                    first, reached, kws, acts = bulk.twin_sweep(long_b, short_b, T, key, salt, item["episodes"])
+                    first, reached, kws, acts = bulk.twin_sweep(long_b, short_b, T, key, salt, item["episodes"],
+                                                                explained=expl_fn)
                 ctx.evals(len(first))
                 ctx.count("sweep_twin_episodes", len(first))
                 ctx.count(f"sweep_survived_to_T_{env}", int(reached.sum()))
